@@ -21,6 +21,11 @@ CHECKS = {
             "to _Packet.decode / LAN.send (Trace_V2)",
             "In-model tamper enumeration; all single-bit flips, truncations, substitutions and random corruptions of authentic "
             "packets replayed into the real decoder (with the authentic packet decoded just before), outcome decided by TLC.", "5 C03"),
+    "C04": ("TLA+ V3Stream.tla state machine (pos, buffer, queue; action Segment(n)): TLC explores EVERY segmentation of every "
+            "stream of a structured family and checks Delivered/NoLoss (MC_V3Stream); chain traces of the real data_received are "
+            "validated by TLC against V3Stream!Segment with the invariants evaluated in every state (Trace_V3Stream)",
+            "Exhaustive model check over all segmentations of bounded streams; real reassembly stepped segment by segment and "
+            "validated against the spec action; end-to-end virtual-time check that send returns at the last byte.", "3.3, 5 C04"),
     "C05": ("TLA+ LanV3Packet.tla: TLC checks encode/decode round trip for every payload length 0..300 (pad 0..15) and edge "
             "counters and that every single-bit flip is an error, under a model cipher/tag (MC_V3); TLC judges real "
             "_encode_encrypted_request / _process_packet / LAN.send bytes and results with EncPacketClause/V3Decode on "
